@@ -13,7 +13,9 @@ type step struct {
 	Xarg string
 	Conn int
 	Name string
-	Args []string // tokens (hex, "-", or P<len>:<a>)
+	Args []string // tokens (hex, "-", or P<len>:<a>); "@C" = the cursor of an iteration step
+	Max  int      // X == "IT": most calls of one cursor-following loop
+	Chrn bool     // X == "IT": add/remove an untracked element between two calls
 }
 
 func lit(s string) string { return tokBytes([]byte(s)) }
@@ -398,6 +400,19 @@ func parseStepLine(l string) (step, bool) {
 		return step{}, false
 	}
 	switch t[0] {
+	case "IT":
+		// IT <conn> <maxcalls> <churn 0|1> <NAME> <nargs> <args with @C>
+		if len(t) < 6 {
+			return step{}, false
+		}
+		c, _ := strconv.Atoi(t[1])
+		mx, _ := strconv.Atoi(t[2])
+		n, _ := strconv.Atoi(t[5])
+		var args []string
+		if n > 0 {
+			args = t[6 : 6+n]
+		}
+		return step{X: "IT", Conn: c, Max: mx, Chrn: t[3] == "1", Name: nameUntok(t[4]), Args: args}, true
 	case "X":
 		a := ""
 		if len(t) > 2 && t[2] != "-" {
